@@ -79,7 +79,7 @@ func Patch(y tensor.Tensor, x tensor.Tensor, p tensor.Tensor, index []tensor.Ran
 			{
 				target: p,
 				gradFn: func() (tensor.Tensor, error) {
-					return y.Gradient().Slice(index)
+					return y.Gradient().Slice(patchedRanges(index, p))
 				},
 			},
 		},
